@@ -29,6 +29,12 @@ Theorem C15_desugar_order_independent :
 Proof. exact desugar_order_independent. Qed.
 Print Assumptions C15_desugar_order_independent.
 
+(** The sum-of-products expansion used when a product is distributed is never empty, so the
+    model's value for an empty sum (Python's [None]) is unreachable. *)
+Theorem C15_expansion_nonempty : forall e, additive_terms e <> [].
+Proof. exact additive_terms_nonempty. Qed.
+Print Assumptions C15_expansion_nonempty.
+
 (** index_dimensions (which tensor dimension a kernel reads each index size from) looks
     through Contract nodes: it cannot see their nesting order. *)
 Theorem C15_index_dimensions_ignores_contract_order :
